@@ -264,12 +264,13 @@ PROPS = {
         "trusted": ["url::Url::parse and its Display"], "assumptions": [],
     },
     "C14": {
-        "lean_targets": ["Pep508.Theorems.C14b", "Pep508.Theorems.NonVacuityE", "Pep508.Theorems.C14", "Pep508.Theorems.NonVacuityD"],
-        "theorems": ["Pep508.C14.restrict_refines", "Pep508.C14.restrict_history_independent", "Pep508.C14.restrict_same_id_later", "Pep508.C14.restrict_twice", "Pep508.C14.not_refines", "Pep508.C14.is_disjoint_refines_tree", "Pep508.C14.is_disjoint_history_independent", "Pep508.C14.seeded_bug_not_refines", "Pep508.C14.seeded_bug_history_dependent", "Pep508.C14.seeded_bug_repair", "Pep508.C14.inv_init", "Pep508.C14.ids_canonical", "Pep508.C14.old_ids_stable", "Pep508.C14.and_refines", "Pep508.C14.or_refines", "Pep508.C14.create_node_refines", "Pep508.C14.cache_transparent", "Pep508.C14.same_id_later", "Pep508.C14.history_independent", "Pep508.C14.and_after_any_history", "Pep508.andF_fuel_irrelevant"],
+        "lean_targets": ["Pep508.Theorems.C14c", "Pep508.Theorems.C14b", "Pep508.Theorems.NonVacuityE", "Pep508.Theorems.C14", "Pep508.Theorems.NonVacuityD"],
+        "theorems": ["Pep508.C14.simplify_refines", "Pep508.C14.complexify_refines", "Pep508.C14.simplify_cache_untouched", "Pep508.C14.simplify_history_independent", "Pep508.C14.complexify_history_independent", "Pep508.C14.simplify_same_id_later", "Pep508.C14.complexify_same_id_later", "Pep508.C14.simplify_after_complexify", "Pep508.C14.simplify_panic_unreachable", "Pep508.C14.complexify_panic_unreachable", "Pep508.C14.restrict_refines", "Pep508.C14.restrict_history_independent", "Pep508.C14.restrict_same_id_later", "Pep508.C14.restrict_twice", "Pep508.C14.not_refines", "Pep508.C14.is_disjoint_refines_tree", "Pep508.C14.is_disjoint_history_independent", "Pep508.C14.seeded_bug_not_refines", "Pep508.C14.seeded_bug_history_dependent", "Pep508.C14.seeded_bug_repair", "Pep508.C14.inv_init", "Pep508.C14.ids_canonical", "Pep508.C14.old_ids_stable", "Pep508.C14.and_refines", "Pep508.C14.or_refines", "Pep508.C14.create_node_refines", "Pep508.C14.cache_transparent", "Pep508.C14.same_id_later", "Pep508.C14.history_independent", "Pep508.C14.and_after_any_history", "Pep508.andF_fuel_irrelevant"],
         "suites": [{"name": "hist", "args": ["C14"]}],
         "rule": "(1) the id-level model (arena + unique table + AND cache + complemented edges) is run by the driver on pool operands after random warm-up contents of the arena and cache: "
                 "its result must denote Tree.and of the operands, equal the implementation's dump, be stable under a cache hit, under operand swap and in a fresh arena, and ids must be "
-                "injective; (2) one query script (parse x6, and/or/not/simplify_extras x7) runs in fresh worker processes after four histories (none, 30 unrelated markers, the same "
+                "injective; the same for the id-level restrict (simplify_extras, after restrictions of the warm-up diagrams under other extras), negation, is_disjoint (iops) and "
+                "simplify / complexify_python_versions (ipy, after the warm-up diagrams went through them under other ranges); (2) one query script (parse x6, and/or/not/simplify_extras x7) runs in fresh worker processes after four histories (none, 30 unrelated markers, the same "
                 "literals under other spellings first, the same work in opposite order): dumps, DNF, text, pairwise ==, cmp and hash-consistency are compared across processes; "
                 "non-trivial = (round, history) pairs",
         "trusted": ["FxHashMap / boxcar are assumed to be a correct map / append-only vector"], "assumptions": [],
@@ -324,7 +325,7 @@ MANIFEST_TEXT = {
                 "andI_same_id, andI_history_independent, createNodeI_spec, internTree_spec. Every observable that is a function of diagrams is therefore history independent. The "
                 "driver runs the id-level model on warmed arenas for every case; fresh-process histories compare dumps, DNF, text, ==, cmp; spelling differences are K1.",
         "note": _NOTE + "the id-level model's tie to the Rust interner is structural (read from the code) plus the history oracle: NodeIds are not observable; FxHashMap / boxcar are "
-                        "assumed to be a correct map / append-only vector; C14b models restrict / not / is_disjoint on ids (restrict_refines, restrict_history_independent, is_disjoint_refines) and proves that a restrict memo keyed by the node alone breaks the refinement (seeded_bug_*); simplify/complexify_python_versions at id level go through create_node only (create_node_refines) and are otherwise modelled at diagram level (C12).",
+                        "assumed to be a correct map / append-only vector; C14b models restrict / not / is_disjoint on ids (restrict_refines, restrict_history_independent, is_disjoint_refines) and proves that a restrict memo keyed by the node alone breaks the refinement (seeded_bug_*); C14c models simplify / complexify_python_versions on ids (simplify_refines, complexify_refines: the result denotes the diagram-level function whatever the arena and the memo hold; history independence; same id later; the two unwrap/assert sites are unreachable on well-formed diagrams with a valid range, and answered FALSE by the model elsewhere). All id-level operations are compared with the implementation on warmed arenas (iand / iops / ipy).",
     },
     "C15": {
         "technique": "Lean 4 theorems over schedules of atomic interner steps (any interleaving): per-thread results equal the sequential ones, racing creations get the same id; "
@@ -388,7 +389,7 @@ MANIFEST_TEXT = {
                      "+ differential Lean model of the whole requirement parser + derivation x layout oracle",
         "text": "layout_accepted / layout_accepted_marker / layout_calls / whitespace_irrelevant over all values satisfying ReqVal.WFL and all layouts (13 independent whitespace runs, parenthesised or bare) satisfying the grammar's mandatory separator (Layout.Fits: a blank between URL and `;`; a URL ending in `;`/`#` takes no trailing blank — proved necessary by url_semicolon_glued_swallows_marker / trailing_blank_after_url_semicolon_changes_outcome); the texts handed to the external specifier parser are the specifier texts up to surrounding blanks (recorded_texts_trim). "
                 "Derivations x layouts generated by the harness are accepted with exactly the derivation's components by the implementation; every outcome matches the model including error spans.",
-        "note": _NOTE + "the marker parser's result on the marker text is a hypothesis of layout_accepted_marker and is a theorem in C08b requirement_layout_full for every well-formed layout of a marker derivation whose atoms are `key op 'v'` / `'v' op key` (word-operator atoms stay a hypothesis AtomsOK); pep440_rs accepting a specifier text with surrounding blanks is external; `===` inside markers is a known finding (K2).",
+        "note": _NOTE + "the marker parser's result on the marker text is a hypothesis of layout_accepted_marker and is a theorem in C08b requirement_layout_full for every well-formed layout of a marker derivation whose atoms satisfy AtomsOK (proved per comparison shape by C01b atom_key_op_string / atom_string_op_key and C17b atom_shape); pep440_rs accepting a specifier text with surrounding blanks is external; `===` inside markers is a known finding (K2).",
     },
     "C12": {
         "technique": "Lean 4 theorems: complexify = AND with the range marker (meaning for all bounds; identity of diagrams via the canonicity theorem), simplify agrees inside R, "
